@@ -449,6 +449,107 @@ def run_solver_tests(ctx):
     ctx.oblige("test:exact-vs-randomized and seed reproducibility (numpy, complex and dask back-ends; seeds 0, 1, 2^32-1 and random)", "oracle", n_fail == 0)
 
 
+def run_threshold_backends(ctx):
+    """the fraction rule on the other solvers and back-ends: real and complex data, full / randomized / auto, data in small, ordinary
+    and large units; fractions half-way between two cumulative fractions of a geometric spectrum (so that solver accuracy cannot
+    move the answer), a partial pre-computation (init_rank_reduction < 1) included"""
+    import warnings
+    import xarray as xr
+    from xeofs.linalg.decomposer import Decomposer
+    r = ctx.rng.child("thr-backends").np
+    for i in range(ctx.n(6, 40)):
+        cplx = i % 2 == 0
+        rank = int(r.integers(8, 16))
+        n, p = rank + int(r.integers(20, 40)), rank + int(r.integers(10, 20))
+        amp = float(10.0 ** r.integers(-4, 4))
+        ratio = float(r.choice([0.5, 0.7]))
+        sv = amp * ratio ** np.arange(rank)
+        A = r.standard_normal((n, rank)) + (1j * r.standard_normal((n, rank)) if cplx else 0)
+        A = A - A.mean(axis=0)
+        U, _ = np.linalg.qr(A)
+        V, _ = np.linalg.qr(r.standard_normal((p, rank)) + (1j * r.standard_normal((p, rank)) if cplx else 0))
+        X = (U * sv) @ V.conj().T
+        Xd = xr.DataArray(X, dims=("sample", "feature"))
+        cum = np.cumsum(sv ** 2) / np.sum(sv ** 2)
+        irr = float(r.choice([0.5, 0.8]))
+        for kk in (1, 2, int(r.integers(3, 6))):
+            frac = float(0.5 * (cum[kk - 1] + cum[kk]))
+            for solver in ("full", "randomized", "auto"):
+                ctx.case(("thr-backend", cplx, solver, rank, kk, amp, i), nontrivial=True, tag="threshold:%s:%s" % ("complex" if cplx else "real", solver),
+                         sample=dict(kind="threshold-backend", complex=cplx, solver=solver, amplitude=amp, ratio=ratio, frac=frac))
+                rp = dict(kind="threshold-backend", complex=cplx, solver=solver, X=X, frac=frac, irr=irr)
+                try:
+                    d = Decomposer(n_modes=frac, init_rank_reduction=irr, solver=solver, random_state=3)
+                    with warnings.catch_warnings(record=True) as rec:
+                        warnings.simplefilter("always")
+                        d.fit(Xd.copy())
+                except Exception as e:
+                    ctx.violation("C15:threshold-backend:error:" + C.errkind(e), "Decomposer(n_modes=%r, solver=%r) on %s data raised %r" % (
+                        frac, solver, "complex" if cplx else "real", e), rp)
+                    continue
+                pre = int(d.n_modes_precompute)
+                reached = np.nonzero(cum[:pre] >= frac)[0]
+                want = int(reached[0]) + 1 if reached.size else pre
+                kept = int(d.s_.sizes["mode"])
+                warned = any("explained variance was requested" in str(w.message) for w in rec)
+                if kept != want or warned != (not reached.size):
+                    ctx.violation("C15:threshold-backend:%s:%s" % ("complex" if cplx else "real", solver),
+                                  "Decomposer(n_modes=%.6f, init_rank_reduction=%g, solver=%r) on %s data of amplitude %g keeps %d mode(s) (warning: %s); the least number "
+                                  "reaching the fraction among the %d precomputed is %d" % (frac, irr, solver, "complex" if cplx else "real", amp, kept, warned, pre, want), rp)
+    ctx.oblige("oracle:fraction rule on real/complex data with the full, randomized and auto solvers", "oracle",
+               not any(v["key"].startswith("C15:threshold-backend") for v in ctx.violations))
+
+
+def run_model_seeds(ctx):
+    """equal inputs with equal random_state give bit-identical results - for every model class that takes random_state, inner
+    pre-reduction steps included (fields wide enough for the randomised back-end to be the one that answers)"""
+    import xarray as xr
+    import xeofs as xe
+    r = ctx.rng.child("model-seeds").np
+    n, p, q = 60, 40, 36
+    X = xr.DataArray(r.standard_normal((n, p)), dims=("time", "x"), coords={"time": np.arange(n), "x": np.arange(p)})
+    Y = xr.DataArray(r.standard_normal((n, q)), dims=("time", "y"), coords={"time": np.arange(n), "y": np.arange(q)})
+    Xc = X + 1j * X.roll(time=5, roll_coords=False)
+    sg, cr = xe.single, xe.cross
+    zoo = [("EOF", lambda sd: sg.EOF(n_modes=3, solver="randomized", random_state=sd), (X,)),
+           ("ComplexEOF", lambda sd: sg.ComplexEOF(n_modes=3, solver="randomized", random_state=sd), (Xc,)),
+           ("HilbertEOF", lambda sd: sg.HilbertEOF(n_modes=3, solver="randomized", random_state=sd), (X,)),
+           ("ExtendedEOF", lambda sd: sg.ExtendedEOF(n_modes=3, tau=1, embedding=2, solver="randomized", random_state=sd), (X,)),
+           ("ExtendedEOF(n_pca_modes)", lambda sd: sg.ExtendedEOF(n_modes=3, tau=1, embedding=2, n_pca_modes=10, solver="randomized", random_state=sd), (X,)),
+           ("OPA", lambda sd: sg.OPA(n_modes=3, tau_max=3, n_pca_modes=10, solver="randomized", random_state=sd), (X,)),
+           ("POP", lambda sd: sg.POP(n_modes=3, n_pca_modes=10, solver="randomized", random_state=sd), (X,)),
+           ("MCA(use_pca)", lambda sd: cr.MCA(n_modes=3, use_pca=True, n_pca_modes=10, solver="randomized", random_state=sd), (X, Y)),
+           ("CCA(use_pca)", lambda sd: cr.CCA(n_modes=3, use_pca=True, n_pca_modes=10, solver="randomized", random_state=sd), (X, Y)),
+           ("CPCCA(use_pca)", lambda sd: cr.CPCCA(n_modes=3, alpha=0.5, use_pca=True, n_pca_modes=0.9, solver="randomized", random_state=sd), (X, Y)),
+           ("MCA(no pca)", lambda sd: cr.MCA(n_modes=3, use_pca=False, solver="randomized", random_state=sd), (X, Y))]
+
+    def results(m):
+        out = []
+        for nm in ("components", "scores"):
+            v = getattr(m, nm)()
+            out += [np.asarray(a.values) for a in (v if isinstance(v, (list, tuple)) else [v])]
+        return out
+    for j, (name, mk, data) in enumerate(zoo):
+        seed = [0, 1, 2 ** 32 - 1, int(r.integers(0, 2 ** 31))][j % 4]
+        ctx.case(("model-seed", name, seed), nontrivial=True, tag="seed-test:model:" + name, sample=dict(kind="model-seed", cls=name, seed=seed))
+        try:
+            outs = []
+            for _ in range(2):
+                m = mk(seed)
+                m.fit(*data, "time")
+                outs.append(results(m))
+        except Exception as e:
+            ctx.violation("C15:seed:model:%s:error:%s" % (name, C.errkind(e)), "%s(solver='randomized', random_state=%d).fit raised %r" % (name, seed, e),
+                          dict(kind="model-seed", cls=name, seed=seed))
+            continue
+        if not all(a.shape == b.shape and np.array_equal(a, b, equal_nan=True) for a, b in zip(*outs)):
+            dev = max(float(np.nanmax(np.abs(a - b))) for a, b in zip(*outs))
+            ctx.violation("C15:seed:model:%s" % name, "%s(solver='randomized', random_state=%d) fitted twice on the same data gives different results (max abs difference %.3g)" % (
+                name, seed, dev), dict(kind="model-seed", cls=name, seed=seed, X=np.asarray(X.values), Y=np.asarray(Y.values)))
+    ctx.oblige("test:equal random_state gives bit-identical results for every model class taking random_state (inner pre-reduction steps included)", "oracle",
+               not any(v["key"].startswith("C15:seed:model") for v in ctx.violations))
+
+
 def run_kwargs(ctx):
     """every model advertising solver_kwargs accepts a documented pass-through option"""
     import xarray as xr
@@ -504,6 +605,8 @@ def run(ctx):
         ctx.notes.append("model does not build: correspondence skipped, oracles only")
         search(ctx)
     run_solver_tests(ctx)
+    run_threshold_backends(ctx)
+    run_model_seeds(ctx)
     run_kwargs(ctx)
 
 
